@@ -9,17 +9,17 @@
 From Coq Require Import NArith List Bool Lia Arith.
 Import ListNotations.
 Require Import SR.Base.Res SR.Model.RefFormat SR.Proofs.RefFormatP SR.Proofs.SentenceValueP.
+(* The definitions of this development that occur in theorem statements (Props/) live in Spec/OneDigitLevelWitness.v (audit item G1).
+   The abbreviations keep the qualified names OneDigitLevelP.name of other files resolving; they are parsing-only aliases. *)
+Require Export SR.Spec.OneDigitLevelWitness.
+Notation digit_pair := SR.Spec.OneDigitLevelWitness.digit_pair (only parsing).
+Notation w6_line1 := SR.Spec.OneDigitLevelWitness.w6_line1 (only parsing).
+Notation w6_line2 := SR.Spec.OneDigitLevelWitness.w6_line2 (only parsing).
+Notation w6_line3 := SR.Spec.OneDigitLevelWitness.w6_line3 (only parsing).
+Notation witness6 := SR.Spec.OneDigitLevelWitness.witness6 (only parsing).
+Notation w6_line1' := SR.Spec.OneDigitLevelWitness.w6_line1' (only parsing).
+Notation w6_line2' := SR.Spec.OneDigitLevelWitness.w6_line2' (only parsing).
 Open Scope N_scope.
-
-(* some two adjacent characters of s are both digits *)
-Fixpoint digit_pair (s : line) : bool :=
-  match s with
-  | d1 :: t => match t with
-               | d2 :: _ => (is_digit d1 && is_digit d2) || digit_pair t
-               | [] => false
-               end
-  | [] => false
-  end.
 
 Lemma digit_pair_tail : forall c t, digit_pair (c :: t) = false -> digit_pair t = false.
 Proof.
@@ -47,18 +47,6 @@ Qed.
 
 Lemma no_pair_no_sentence : forall lines, digit_pair (concat lines) = false -> dde_sentences lines = [].
 Proof. intros lines H. unfold dde_sentences. apply scan_no_pair. exact H. Qed.
-
-(* ------------------------------------------------------------------ the witness
-          1 R.
-             5 A PIC X.
-             10 B PIC X.                                                            *)
-Definition w6_line1 : line := [32; 32; 32; 32; 32; 32; 32; 49; 32; 82; 46; 10].
-Definition w6_line2 : line := [32; 32; 32; 32; 32; 32; 32; 32; 32; 32; 53; 32; 65; 32; 80; 73; 67; 32; 88; 46; 10].
-Definition w6_line3 : line := [32; 32; 32; 32; 32; 32; 32; 32; 32; 32; 49; 48; 32; 66; 32; 80; 73; 67; 32; 88; 46; 10].
-Definition witness6 : list line := [w6_line1; w6_line2; w6_line3].
-(* the same with the levels written 01 and 05 *)
-Definition w6_line1' : line := [32; 32; 32; 32; 32; 32; 32; 48; 49; 32; 82; 46; 10].
-Definition w6_line2' : line := [32; 32; 32; 32; 32; 32; 32; 32; 32; 32; 48; 53; 32; 65; 32; 80; 73; 67; 32; 88; 46; 10].
 
 Lemma refuted_6 :
   entry_texts witness6 = Ok [([49; 48], [66; 32; 80; 73; 67; 32; 88])]
